@@ -39,6 +39,11 @@ for _d in range(0x31, 0x3A):
     REP[_d] = 0x35
 
 
+class Alphabet:
+    def __init__(self, name, classes, rep, entry, states, canon, maxtext):
+        self.name, self.classes, self.rep, self.entry, self.states, self.canon, self.maxtext = name, classes, rep, entry, states, canon, maxtext
+
+
 def canon_text(t):
     """canonical representative of a saved number text (see module docstring)"""
     out = bytearray()
@@ -72,9 +77,16 @@ def canon_text(t):
     return bytes(out)
 
 
+LIT_LETTERS = sorted(set(b"nulltruefalseNaNinfinity") | set(b"nulltruefalseNaNinfinity".upper()) | set(b"nulltruefalsenaninfinity"))
+NUM_ALPHA = Alphabet("number", CLASSES, REP, ("0", "1-9", "-"), ("number",), canon_text, 12)
+LIT_ALPHA = Alphabet("literal", [(chr(b), [b]) for b in LIT_LETTERS], {b: b for b in LIT_LETTERS},
+                     tuple(chr(b) for b in b"ntfNTF"), ("null", "boolean"), (lambda t: t), 10)
+
+
 class NumPE(TokPE, StrPE):
-    def __init__(self, prog, fields, sfields, cfg, flags, max_depth, length, byte_domain, text, pbf):
+    def __init__(self, prog, fields, sfields, cfg, flags, max_depth, length, byte_domain, text, pbf, rep=None):
         TokPE.__init__(self, prog, fields, sfields, cfg, flags, max_depth, length, byte_domain)
+        self.rep = rep if rep is not None else REP
         self.text = text            # bytes, or None when no number text is being tracked (buffer unknown)
         self.PB = pbf
         self.fn_module = prog.module("json_tokener.c")
@@ -132,7 +144,7 @@ class NumPE(TokPE, StrPE):
             vs = state.values(v)
             if not vs:
                 return None
-            reps = {REP.get(x % 256, x % 256) for x in vs}
+            reps = {self.rep.get(x % 256, x % 256) for x in vs}
             if len(reps) != 1:
                 return None
             out.append(next(iter(reps)))
@@ -184,6 +196,64 @@ class NumPE(TokPE, StrPE):
                 return pe.C((a > b) - (a < b))
         return None
 
+    def _text_sets(self, state):
+        """per position: the set of byte values the modelled buffer may hold there (exact), or None"""
+        n = self._bpos(state)
+        if n is None or n < 0 or n > 64:
+            return None
+        out = []
+        for k in range(n):
+            v = self.load(state, ("ptr", "pbbuf", (("i", k),)) if k else ("ptr", "pbbuf", ()), "i8")
+            if pe.is_const(v):
+                out.append({v[1] % 256})
+                continue
+            if pe.has_top(v):
+                return None
+            vs = state.values(v, cap=300)
+            if not vs:
+                return None
+            out.append({x % 256 for x in vs})
+        return out
+
+    def _compare_symbolic(self, state, nm, args):
+        """str(n)(case)cmp with the token buffer on one side when some position holds a whole class of bytes: the result
+        is a constant when every member of the class gives the same result, an unknown non-zero value when none gives
+        zero; otherwise undecided here"""
+        from itertools import product as iproduct
+        sets = self._text_sets(state)
+        if sets is None or all(len(x) == 1 for x in sets):
+            return None
+        if sum(1 for x in sets if len(x) > 1) != 1:
+            return None
+        a, b = args[0], args[1]
+        which = 0 if (a[0] == "ptr" and a[1] == "pbbuf") else 1
+        p = (a if which == 0 else b)[2]
+        off = 0
+        if p:
+            off = p[-1][1] if isinstance(p[-1], tuple) and p[-1][0] == "i" and isinstance(p[-1][1], int) else None
+        lit = self._lit(state, b if which == 0 else a)
+        if off is None or lit is None:
+            return None
+        n = None
+        if nm.startswith("strn"):
+            if not pe.is_const(args[2]):
+                return None
+            n = args[2][1]
+        results = set()
+        for combo in iproduct(*[sorted(x) for x in sets]):
+            t = bytes(combo)[off:]
+            x, y = (t, lit) if which == 0 else (lit, t)
+            if n is not None:
+                x, y = x[:n], y[:n]
+            if "case" in nm:
+                x, y = x.lower(), y.lower()
+            results.add((x > y) - (x < y))
+        if len(results) == 1:
+            return pe.C(next(iter(results)))
+        if 0 not in results:
+            return self.fresh_root(state, "cmp", sorted(results))
+        return None
+
     def call_model(self, state, frame, i, args):
         nm = i.callee
         PB = self.PB
@@ -206,6 +276,34 @@ class NumPE(TokPE, StrPE):
             self.store(state, ("ptr", "pbbuf", (("i", pos + n),)) if pos + n else ("ptr", "pbbuf", ()), pe.C(0))
             self.store(state, ("ptr", "pb", (("i", 0), PB["bpos"])), pe.C(pos + n))
             return pe.C(n)
+        if nm in ("strncmp", "strcmp", "strncasecmp", "strcasecmp") and len(args) >= 2 and \
+                any(a[0] == "ptr" and a[1] == "pbbuf" for a in args[:2]):
+            res = self._compare_symbolic(state, nm, args)
+            if res is not None:
+                return res
+            sides = []
+            for a in args[:2]:
+                if a[0] == "ptr" and a[1] == "pbbuf":
+                    full = self.current_text(state)
+                    p = a[2]
+                    off = 0
+                    if p:
+                        off = p[-1][1] if isinstance(p[-1], tuple) and p[-1][0] == "i" and isinstance(p[-1][1], int) else None
+                    sides.append(full[off:] if full is not None and off is not None and off <= len(full) else None)
+                else:
+                    sides.append(self._lit(state, a))
+            n = None
+            if nm.startswith("strn"):
+                n = args[2][1] if pe.is_const(args[2]) else -1
+            if sides[0] is None or sides[1] is None or n == -1:
+                state.trace.append(("opaque_text", nm))
+                return None
+            x, y = sides
+            if n is not None:
+                x, y = x[:n], y[:n]
+            if "case" in nm:
+                x, y = x.lower(), y.lower()
+            return pe.C((x > y) - (x < y))
         if nm in TEXT_FUNCS and args and args[0][0] == "ptr" and args[0][1] == "pbbuf":
             full = self.current_text(state)
             p = args[0][2]
@@ -285,8 +383,10 @@ class NOutcome(tokauto.Outcome):
 class NumTable(Table):
     """steps of the tokener with the token buffer modelled; nodes are (configuration, canonical text or None)"""
 
-    def __init__(self, prog, flags, max_depth):
+    def __init__(self, prog, flags, max_depth, alpha=None):
         Table.__init__(self, prog, flags, max_depth)
+        self.alpha = alpha or NUM_ALPHA
+        self.TRACKED = {self.states.get("json_tokener_state_" + n) for n in self.alpha.states}
         m = prog.module("printbuf.c") or prog.module("json_tokener.c")
         pf = prog.module("json_tokener.c").struct_fields("%struct.printbuf")
         if not pf or "bpos" not in pf or "buf" not in pf:
@@ -299,7 +399,7 @@ class NumTable(Table):
     def nstep(self, cfg, text, byte_domain, length=1, second=None):
         """outcomes of one call from (cfg, text) for input bytes in byte_domain; each outcome carries .text (canonical text
         after the call, None when the buffer is no longer a tracked number text) and .ranges (conversion range roots)"""
-        h = NumPE(self.prog, self.F, self.S, cfg, self.flags, self.max_depth, length, byte_domain, text, self.PB)
+        h = NumPE(self.prog, self.F, self.S, cfg, self.flags, self.max_depth, length, byte_domain, text, self.PB, self.alpha.rep)
         h.deadline = getattr(self, "deadline", None)
         h.depth_oob = None
         if second is not None:
@@ -323,12 +423,13 @@ class NumTable(Table):
             o.consumed = self._const(s, self.tokloc(self.F["char_offset"]), 0)
             o.next = self._next_config(s, cfg)
             o.calls = [e[1] for e in s.trace if e[0] == "call"]
+            o.callargs = [(e[1], tuple(a[1] if pe.is_const(a) else None for a in e[2])) for e in s.trace if e[0] == "call"]
             o.appends = []
             o.lookahead = any(e[0] == "lookahead" for e in s.trace)
             o.stores = None
             o.gloads, o.pbstores, o.reads, o.field_reads, o.field_writes, o.tail = [], 0, 0, [], [], ()
             t = h.current_text(s)
-            o.text = canon_text(t) if t is not None else None
+            o.text = self.alpha.canon(t) if t is not None else None
             o.rawtext = t
             o.ranges = {r: sorted(s.roots[r]) for r in s.roots if r.startswith("range#") or r.startswith("urange#")}
             o.conv = [e[1:] for e in s.trace if e[0] == "conv"]
@@ -342,13 +443,13 @@ class NumTable(Table):
         return cfg[1][cfg[0]][0]
 
 
-def number_entries(T):
-    """configurations of the general automaton from which some byte starts a number token"""
-    NUMBER = T.states.get("json_tokener_state_number")
+def number_entries(T, states=("number",)):
+    """configurations of the general automaton from which some byte starts a token read in one of the given states"""
+    S = {T.states.get("json_tokener_state_" + n) for n in states}
     out = []
     for cfg, outs in T.trans.items():
         for o in outs:
-            if o.next is not None and o.err in (0, 1) and o.next[1][o.next[0]][0] == NUMBER and cfg[1][cfg[0]][0] != NUMBER:
+            if o.next is not None and o.err in (0, 1) and o.next[1][o.next[0]][0] in S and cfg[1][cfg[0]][0] not in S:
                 out.append(cfg)
                 break
     return out
@@ -357,9 +458,9 @@ def number_entries(T):
 _W = {}
 
 
-def _worker_init(prog, flags, max_depth, budget_s):
+def _worker_init(prog, flags, max_depth, budget_s, alpha=None):
     import time
-    NT = NumTable(prog, flags, max_depth)
+    NT = NumTable(prog, flags, max_depth, alpha)
     NT.deadline = time.time() + budget_s
     _W["NT"] = NT
 
@@ -377,13 +478,14 @@ def _worker_step(task):
 MAXTEXT = 12
 
 
-def explore(prog, flags, max_depth, entries, limit=5000, budget_s=900, jobs=None):
+def explore(prog, flags, max_depth, entries, limit=5000, budget_s=900, jobs=None, alpha=None):
     """all (configuration, text) nodes reachable while a number is being read, starting from the given entry configurations.
     returns (NT, nodes: {node: [(classname, outcome)]}, parent: {node: (prev node, byte)}, truncated nodes)"""
     import time
     import multiprocessing as mp
     import os
-    NT = NumTable(prog, flags, max_depth)
+    alpha = alpha or NUM_ALPHA
+    NT = NumTable(prog, flags, max_depth, alpha)
     t0 = time.time()
     nodes = {}
     parent = {}
@@ -393,10 +495,10 @@ def explore(prog, flags, max_depth, entries, limit=5000, budget_s=900, jobs=None
         n = (e, None)
         parent[n] = None
         frontier.append(n)
-    rest = [b for b in range(-128, 128) if (b % 256) not in REP]
+    rest = [b for b in range(-128, 128) if (b % 256) not in alpha.rep]
     jobs = jobs or min(16, os.cpu_count() or 1)
     ctx = mp.get_context("fork")
-    pool = ctx.Pool(jobs, initializer=_worker_init, initargs=(prog, flags, max_depth, budget_s))
+    pool = ctx.Pool(jobs, initializer=_worker_init, initargs=(prog, flags, max_depth, budget_s, alpha))
     try:
         while frontier:
             if len(nodes) + len(frontier) > limit:
@@ -408,10 +510,10 @@ def explore(prog, flags, max_depth, entries, limit=5000, budget_s=900, jobs=None
             tasks = []
             for node in frontier:
                 cfg, text = node
-                in_number = NT.top_state(cfg) == NT.NUMBER
-                for cname, bs in CLASSES + [("other", rest)]:
-                    if not in_number and cname not in ("0", "1-9", "-"):
-                        continue         # from an entry configuration only the bytes that start a number matter
+                in_number = NT.top_state(cfg) in NT.TRACKED
+                for cname, bs in alpha.classes + [("other", rest)]:
+                    if not in_number and cname not in alpha.entry:
+                        continue         # from an entry configuration only the bytes that start such a token matter
                     tasks.append((cfg, text, cname, [b if b < 128 else b - 256 for b in bs], 1))
                 nodes[node] = []
             nxt = []
@@ -422,15 +524,15 @@ def explore(prog, flags, max_depth, entries, limit=5000, budget_s=900, jobs=None
                 node = (cfg, text)
                 for o in outs:
                     nodes[node].append((cname, o))
-                    if o.err in (0, 1) and o.next is not None and NT.top_state(o.next) == NT.NUMBER:
+                    if o.err in (0, 1) and o.next is not None and NT.top_state(o.next) in NT.TRACKED:
                         if o.text is None:
-                            raise AnalysisBroken("number text lost in %s after %r + %s" % (NT.cfg_str(cfg), text, cname))
+                            raise AnalysisBroken("token text lost in %s after %r + %s" % (NT.cfg_str(cfg), text, cname))
                         nn = (NT.canon(o.next), o.text)
                         o.next = nn[0]
                         if nn not in nodes and nn not in parent:
                             b0 = sorted(x % 256 for x in o.bytes)[0]
-                            parent[nn] = (node, REP.get(b0, b0))
-                            if len(o.text) > MAXTEXT:
+                            parent[nn] = (node, alpha.rep.get(b0, b0))
+                            if len(o.text) > alpha.maxtext:
                                 truncated.append(nn)
                             else:
                                 nxt.append(nn)
